@@ -475,6 +475,54 @@ func init() {
 		}
 		return sm
 	}
+	// index-returning variants: the same parse enumeration, positions instead of substrings
+	findIdx := func(fr *frame, args []value, sub bool) value {
+		re := hostRegexp(args[0])
+		conv := func(r []int) value {
+			if r == nil {
+				return []value(nil)
+			}
+			o := make([]value, len(r))
+			for i, x := range r {
+				o[i] = x
+			}
+			return o
+		}
+		if s, ok := args[1].(string); ok {
+			if sub {
+				return conv(re.FindStringSubmatchIndex(s))
+			}
+			return conv(re.FindStringIndex(s))
+		}
+		ex := fr.ex()
+		bs := strBytes(ex.ts, args[1])
+		starts := len(bs)
+		if anchoredAtStart(re) {
+			starts = 0
+		}
+		var parses []reParse
+		for st := 0; st <= starts; st++ {
+			ps, _ := reEnumerate(ex, re, bs, st)
+			parses = append(parses, ps...)
+		}
+		p := reChoose(ex, parses)
+		if p == nil {
+			return []value(nil)
+		}
+		if sub {
+			return conv(p.caps)
+		}
+		return conv(p.caps[:2])
+	}
+	intrinsics["(*regexp.Regexp).FindStringSubmatchIndex"] = func(fr *frame, args []value) value { return findIdx(fr, args, true) }
+	intrinsics["(*regexp.Regexp).FindStringIndex"] = func(fr *frame, args []value) value { return findIdx(fr, args, false) }
+	intrinsics["(*regexp.Regexp).FindString"] = func(fr *frame, args []value) value {
+		r := findIdx(fr, args, false).([]value)
+		if r == nil {
+			return ""
+		}
+		return mkStr(strBytes(fr.ex().ts, args[1])[r[0].(int):r[1].(int)])
+	}
 	intrinsics["(*regexp.Regexp).FindAllStringSubmatch"] = func(fr *frame, args []value) value { return findSub(fr, args, true) }
 	intrinsics["(*regexp.Regexp).FindStringSubmatch"] = func(fr *frame, args []value) value { return findSub(fr, args, false) }
 	_ = fmt.Sprint
